@@ -327,7 +327,10 @@ def interp_partial(ctx, prog, f):
 
                 results = []
 
-                def osio(run, e, args, calls=calls, it=it, results=results):
+                kinds = []
+
+                def osio(run, e, args, calls=calls, it=it, results=results, kinds=kinds):
+                    kinds.append((e.get('fn') or '').split('::')[-1])
                     calls.append((args[1], args[2]))
                     try:
                         r_ = next(it)
@@ -352,6 +355,8 @@ def interp_partial(ctx, prog, f):
                         if not last:
                             return 'bad', 'the loop calls the OS again after it returned %d (script %s)' % (res, script)
                         break
+                    if res == 0 and not last and kinds[k] in ('read', 'recv'):
+                        return 'bad', 'the loop calls the OS again after a receive returned 0 (script %s): 0 is the end of the stream - a peer that closed makes every further call return 0 at once, and the read never returns' % script
                     done += res
                     if done >= N and not last:
                         return 'bad', 'with %d of %d bytes transferred the loop goes on (script %s)' % (done, N, script)
